@@ -124,8 +124,26 @@ func accepts(w *wl.Wallet, cands map[string][]byte) map[string]string {
 			out[id] = strings.Join(acc, "+")
 		}
 	}
+	// a passphrase every keystore accepts must also unlock the wallet (the acceptance above only derives the master
+	// key; unlocking decrypts what that key protects)
+	for _, k := range keys {
+		all := len(names) > 0
+		for _, id := range names {
+			all = all && strings.Contains("+"+out[id]+"+", "+"+k+"+")
+		}
+		if !all {
+			continue
+		}
+		if err := w.M.Unlock(cands[k]); err != nil {
+			out[unlockKey] = fmt.Sprintf("passphrase %q is accepted by every keystore but does not unlock the wallet: %v", k, err)
+		}
+		w.M.Lock()
+	}
 	return out
 }
+
+// unlockKey is the entry of an acceptance map that reports a wallet no accepted passphrase unlocks.
+const unlockKey = "<unlock>"
 
 // openExt reopens dir without faults, trying the candidate public passphrases, and reads the extended state.
 func openExt(dir string, pubs map[string][]byte, privs map[string][]byte) (ext Ext, err error) {
@@ -545,6 +563,10 @@ func faultHistory(run *vh.Run, rng *vh.Rng, hi int) {
 			postExt, err = openExt(refDir, pubs, privs)
 			if err != nil {
 				run.Violate(hi*1000+j*100, "store-does-not-open-after-fault-free-operation", map[string]string{"op": op.Kind}, map[string]interface{}{"err": err.Error(), "history": trace})
+				return
+			}
+			if why, bad := postExt.Accepts[unlockKey]; bad {
+				run.Violate(hi*1000+j*100, "wallet-cannot-be-unlocked-after-fault-free-operation", map[string]string{"op": op.Kind, "wallet_unlocked_during_op": fmt.Sprint(op.Unlock)}, map[string]interface{}{"why": why, "history": trace})
 				return
 			}
 		} else {
